@@ -23,6 +23,7 @@ const (
 	clError    = 'X' // a matcher fails with an error
 	clFull     = 'B' // a matcher keeps asking for more -> matching buffer full
 	clTLS      = 'T' // TLS-terminated by a non-terminal route, then falls through
+	clTwoStep  = 'P' // matched by a non-terminal route (consumes one byte), then by a terminal route
 )
 
 type c13Conn struct {
@@ -77,6 +78,7 @@ func runC13(t *testing.T, e *worlds.Env, tier string) (bool, any) {
 	oldProcs := runtime.GOMAXPROCS(0)
 	defer runtime.GOMAXPROCS(oldProcs)
 	handedWithPrefetch := 0
+	var matchTimeout time.Duration
 	e.Run(t, func() func() bool {
 		e.N.Cfg = netKnobs(e)
 		if e.N.Cfg.Window > 0 && e.N.Cfg.Window < 1500 {
@@ -88,6 +90,7 @@ func runC13(t *testing.T, e *worlds.Env, tier string) (bool, any) {
 		runtime.GOMAXPROCS(procs)
 		sample.ChanCap = procs
 		timeout := time.Duration(tp.Pick("timeout-ms", 500, 200, 1000, 3000)) * time.Millisecond
+		matchTimeout = timeout
 		sample.Timeout = timeout.String()
 		b := &Builder{E: e, Tag: "C13"}
 		first := func(c byte, need int, verdict int) *worlds.SpecMatcher {
@@ -109,14 +112,27 @@ func runC13(t *testing.T, e *worlds.Env, tier string) (bool, any) {
 		needFall := tp.Pick("fall-need", 1, 5, 700, 2049, 5000)
 		tlsm := MSpec{ID: "mtls", Real: "tls"}
 		tlsh := HSpec{Kind: "tls", Name: "tls"}
-		routes := layer4.RouteList{
+		pcon := HSpec{Kind: "consume", Name: "pcon", K: 1}
+		// the two-step pair (non-terminal route, then the terminal route) sits either at the head
+		// or at the tail of the list: at the tail nothing is left to decide after the terminal
+		// handler, so only its being terminal keeps the connection away from Accept
+		twoStep := []*layer4.Route{
+			layer4.VerifNewRoute([]layer4.MatcherSet{{first(clTwoStep, 1, 1)}}, []layer4.NextHandler{b.Handler(&pcon, sig)}),
 			layer4.VerifNewRoute([]layer4.MatcherSet{{first(clTerminal, tp.Pick("term-need", 1, 3, 2500), 1)}}, []layer4.NextHandler{b.Handler(&term, sig)}),
+		}
+		pairLast := tp.Prob(1, 2, "pair-last")
+		routes := layer4.RouteList{
 			layer4.VerifNewRoute([]layer4.MatcherSet{{first(clNever, 1<<30, 2)}}, []layer4.NextHandler{b.Handler(&term, sig)}),
 			layer4.VerifNewRoute([]layer4.MatcherSet{{first(clError, tp.Pick("err-need", 1, 40), 3)}}, []layer4.NextHandler{b.Handler(&term, sig)}),
 			layer4.VerifNewRoute([]layer4.MatcherSet{{first(clFull, 1<<30, 2)}}, []layer4.NextHandler{b.Handler(&term, sig)}),
 			layer4.VerifNewRoute([]layer4.MatcherSet{{b.Matcher(&tlsm)}}, []layer4.NextHandler{b.Handler(&tlsh, sig)}),
 			// asks for needFall bytes of a fall-through connection, then says no
 			layer4.VerifNewRoute([]layer4.MatcherSet{{first(clFall, needFall, 0)}}, []layer4.NextHandler{b.Handler(&term, sig)}),
+		}
+		if pairLast {
+			routes = append(routes, twoStep...)
+		} else {
+			routes = append(layer4.RouteList(twoStep), routes...)
 		}
 		ln = e.N.Listen("ln", simnet.TCPAddr("10.0.0.1", 443))
 		lw := layer4.VerifNewListenerWrapper(routes, timeout, e.Log)
@@ -128,7 +144,7 @@ func runC13(t *testing.T, e *worlds.Env, tier string) (bool, any) {
 		<-ready
 		// clients
 		n := 1 + tp.Choose(7, "nconn")
-		classes := []byte{clFall, clFall, clTerminal, clNever, clError, clFull, clTLS}
+		classes := []byte{clFall, clFall, clTerminal, clNever, clError, clFull, clTLS, clTwoStep}
 		for i := 1; i <= n; i++ {
 			cls := classes[tp.Choose(len(classes), "class")]
 			plan := &worlds.ClientPlan{ID: i, Addr: worlds.ClientAddr(i), End: worlds.EndHalfClose}
@@ -152,6 +168,14 @@ func runC13(t *testing.T, e *worlds.Env, tier string) (bool, any) {
 				m.App[0] = clFall // plaintext falls through
 			} else {
 				m.App[0] = cls
+			}
+			if cls == clTwoStep {
+				if len(m.App) < 8 {
+					m.App = worlds.Stream(m.Key, 8+tp.Choose(40, "len-p"))
+					m.App[0] = cls
+				}
+				m.App[1] = clTerminal // after the first route consumed one byte, the terminal route matches
+				ln2 = len(m.App)
 			}
 			plan.App = m.App
 			plan.Chunks = e.MakeChunks(ln2, 15*time.Millisecond)
@@ -278,7 +302,7 @@ func runC13(t *testing.T, e *worlds.Env, tier string) (bool, any) {
 			}
 			srvClosed := cs.client.End.Peer().IsClosed()
 			switch cs.class {
-			case clTerminal, clNever, clError, clFull:
+			case clTerminal, clNever, clError, clFull, clTwoStep:
 				if cs.accepts > 0 {
 					e.S.Fail("C13/delivered-consumed", "lw", "conn %d (class %c: consumed or rejected by layer4) was delivered to Accept %d times", m.ID, cs.class, cs.accepts)
 				}
@@ -293,7 +317,10 @@ func runC13(t *testing.T, e *worlds.Env, tier string) (bool, any) {
 					// legitimate only if the listener was closed before the hand-off, the client
 					// failed before matching finished, or the TLS handshake failed
 					hsFailed := cs.class == clTLS && !cs.client.HSDone
-					if !closedMid && !hsFailed && m.WroteAll {
+					// a client that needed a large part of the matching timeout to deliver its
+					// bytes may legitimately have been timed out (class c)
+					slow := cs.client.WDoneAt-cs.client.Plan.StartAt > matchTimeout/2
+					if !closedMid && !hsFailed && m.WroteAll && !slow {
 						e.S.Fail("C13/lost-connection", "lw", "conn %d (class %c) fell through all routes but was never returned by Accept (listener open until the end)", m.ID, cs.class)
 					}
 					if !srvClosed {
